@@ -16,7 +16,7 @@ THEOREMS = [
     "C06_change_empties_caches_below", "C06_answers_after_change",
     "C06_push_change_empties_caches", "C06_verifying_verify_empties_cache",
 ]
-SHARD = 12
+SHARD = 10
 RULE = ("registry DAGs of 3-6 registries of one flavour (chains of 3-5 with one or two alternative tops, diamonds, "
         "diamonds with a tail), created in topological order; the same adapter keys / subscription keys are "
         "registered with registry-specific values in every member so that the nearest registry in C3 order decides; "
@@ -76,6 +76,16 @@ def gen_dag(rng):
         bs.reverse()
         dag.append(bs)
     return dag
+
+
+def _reach(bases, x):
+    out, todo = set(), [x]
+    while todo:
+        y = todo.pop()
+        if y not in out:
+            out.add(y)
+            todo.extend(bases[y])
+    return out
 
 
 def _sweep(rng, n_regs, akeys, skeys, rel, look_pool, ifaces, nobj, frac=1.0):
@@ -181,6 +191,7 @@ def gen_chain_case(rng, fl):
     fixed_sweep = sweep(1.0)
     ops += fixed_sweep
     # rounds
+    cur = [list(bs) for bs in dag]
     level = rng.randrange(1, n)
     for _ in range(rng.choice([3, 4, 5, 6])):
         what = rng.random()
@@ -191,13 +202,17 @@ def gen_chain_case(rng, fl):
             rng.shuffle(cand)
             bs = sorted(cand[: rng.choice([0, 1, 1, 1, 2])], reverse=True)
             ops.append(["setregbases", r, bs])
-            if rng.random() < 0.35:
-                ops.append(mutation())          # a change between the re-base and the next lookups
+            cur[r] = bs
+            if rng.random() < 0.5:
+                # a change between the re-base and the next lookups, preferably in a registry BELOW the
+                # re-based one (a verifying registry re-takes its generation snapshot when it changes)
+                below = [x for x in range(n) if x != r and r in _reach(cur, x)]
+                ops.append(mutation(rng.choice(below) if below and rng.random() < 0.8 else None))
         else:
             ops.append(mutation())
         ops += fixed_sweep if rng.random() < 0.7 else sweep(0.6)
-    if nobj and slook_keys:
-        # (the answer of ``subscribers`` carries a 999999 separator, expensive as a unary nat: once per case)
+    if nobj and slook_keys and rng.random() < 0.25:
+        # (the answer of ``subscribers`` carries a 999999 separator, expensive as a unary nat: rarely)
         (_req, p) = slook_keys[0]
         ops.append(["subscribers", n - 1, [rng.randrange(nobj) for _ in range(len(_req) or 1)], p])
     world["ops"] = ops
@@ -282,7 +297,8 @@ def gen_comp_case(rng):
         else:
             cops += fill(rng.randrange(n))[:1]
         cops += sw
-    cops.append(["subscribers", n - 1, [qobj[(n - 1, 0)]], qp[(skey[1], 2)]])
+    if rng.random() < 0.3:
+        cops.append(["subscribers", n - 1, [qobj[(n - 1, 0)]], qp[(skey[1], 2)]])
     world["cops"] = cops
     world["stream"] = "comp"
     return world
@@ -292,11 +308,11 @@ def generate(run, tier):
     rng = run.rng("gen")
     big = tier != "quick"
     cases = []
-    for i in range(90 if not big else 900):
+    for i in range(72 if not big else 900):
         cases.append(gen_chain_case(rng, "push" if i % 2 == 0 else "verifying"))
-    for _ in range(60 if not big else 600):
+    for _ in range(48 if not big else 600):
         cases.append(gen_random_case(rng))
-    for _ in range(30 if not big else 300):
+    for _ in range(24 if not big else 300):
         cases.append(gen_comp_case(rng))
     return cases
 
